@@ -26,13 +26,17 @@ namespace nmtools::index
             if constexpr (meta::is_index_array_v<axes_t>) {
                 auto in_axis = static_cast<bool>(
                     index::count([&](const auto ii){
-                        using common_t = meta::promote_index_t<decltype(ii),size_t>;
-                        return (common_t)ii == (common_t)i;
+                        // allow negative axis (python-style)
+                        using common_t = meta::make_signed_t<meta::promote_index_t<decltype(ii),size_t>>;
+                        auto axis = ((common_t)ii < (common_t)0) ? ((common_t)dim + (common_t)ii) : (common_t)ii;
+                        return axis == (common_t)i;
                     }, axes)
                 );
                 nmtools::get<2>(at(result,i)) = in_axis ? -1 : 1;
             } else if constexpr (meta::is_index_v<axes_t>) {
-                nmtools::get<2>(at(result,i)) = ((size_t)axes == i) ? -1 : 1;
+                // allow negative axis (python-style)
+                auto axis = ((nm_index_t)axes < (nm_index_t)0) ? ((nm_index_t)dim + (nm_index_t)axes) : (nm_index_t)axes;
+                nmtools::get<2>(at(result,i)) = ((size_t)axis == i) ? -1 : 1;
             } else if constexpr (is_none_v<axes_t>) {
                 nmtools::get<2>(at(result,i)) = -1;
             }
